@@ -374,6 +374,9 @@ func emitCallOrders(p *pkgInfo) string {
 	var b strings.Builder
 	b.WriteString("/- GENERATED by extract from /repo's current source: do not edit. -/\nnamespace Rapid.Generated\n\n")
 	fmt.Fprintf(&b, "def order_checkOnce : List String := %s\n", leanList(stmtTags(p, p.funcs["checkOnce"])))
+	fmt.Fprintf(&b, "def order_runProp : List String := %s\n", leanList(stmtTags(p, p.funcs["runProp"])))
+	fmt.Fprintf(&b, "def order_pendingFailure : List String := %s\n", leanList(stmtTags(p, p.funcs["pendingFailure"])))
+	fmt.Fprintf(&b, "def order_Repeat : List String := %s\n", leanList(stmtTags(p, p.funcs["T.Repeat"])))
 	fmt.Fprintf(&b, "def order_maybeValue : List String := %s\n", leanList(stmtTags(p, p.funcs["customGen.maybeValue"])))
 	fmt.Fprintf(&b, "def order_cleanup : List String := %s\n", leanList(stmtTags(p, p.funcs["T.cleanup"])))
 	fmt.Fprintf(&b, "def order_example : List String := %s\n", leanList(stmtTags(p, p.funcs["example"])))
